@@ -114,6 +114,36 @@ def check_text(text, name):
         elif a[0] != b[0]:
             out.append({"case": case, "diagnosis": "dumps-outcome-differs:" + ename,
                         "detail": "%r: old %r new %r" % (text[:80], a[:2], b[:2])})
+    # the other ways of calling the two loaders: an explicit grammar, an explicit decoder, bytes
+    if not out and (name.startswith(("extra", "shape", "corpus")) or name in ("ctx:eof", "ctx:units", "ctx:in-group")):
+        from decimal import Decimal
+        variants = [("grammar=ODLGrammar()", lambda: {"grammar": impl.ODLGrammar()}),
+                    ("grammar=PVLGrammar()", lambda: {"grammar": impl.PVLGrammar()}),
+                    ("grammar=ISISGrammar()", lambda: {"grammar": impl.ISISGrammar()}),
+                    ("decoder=OmniDecoder(real_cls=Decimal)", lambda: {"decoder": impl.OmniDecoder(real_cls=Decimal)}),
+                    ("grammar+decoder", lambda: {"grammar": impl.PVLGrammar(), "decoder": impl.PVLDecoder()})]
+        for vname, mk in variants + [("bytes", None)]:
+            if mk is None:
+                data = text.encode("utf-8")
+                a, b = outcome(lambda: pvl.loads(data)), outcome(lambda: pvl.new.loads(data))
+            else:
+                a, b = outcome(lambda: pvl.loads(text, **mk())), outcome(lambda: pvl.new.loads(text, **mk()))
+            if a[0] != "ok":
+                if b[0] == "ok":
+                    out.append({"case": case, "diagnosis": "new-accepts-what-default-rejects:" + vname,
+                                "detail": "%r: default %r" % (text[:100], a)})
+                continue
+            if getattr(a[1], "errors", []):
+                continue
+            if b[0] != "ok":
+                out.append({"case": case, "diagnosis": "new-rejects-what-default-accepts:" + vname,
+                            "detail": "%r: pvl.new.loads gives %r" % (text[:100], b)})
+                continue
+            dd = compare(tree(a[1], False), tree(b[1], True))
+            if dd:
+                out.append({"case": case, "diagnosis": "content-differs:" + vname, "detail": "%r: %s" % (text[:100], dd)})
+        if out:
+            return out, "violation"
     # the same two results handed to one encoder after the other (an encoder may convert a block of
     # its argument in place - PDS3 does, documented - and both sides must then go the same way)
     if not out:
@@ -168,7 +198,7 @@ def texts_generated(quick):
             if text not in seen:
                 seen.add(text)
                 yield "shape%d" % si, text
-    extra = ["a = 2001-01-01T12:00:00.5Z\nb = 12:00\nc = 2001-001\n", "a = NULL\nb = TRUE\nc = false\n",
+    extra = ["a = 2001-01-01T12:00:00.5Z\nb = 12:00\nc = 2001-001\n", "n = \"45\u00b0 phase \u4e2d\"\nu = 1 <\u00b5m>\nr = 0.10\n", "a = NULL\nb = TRUE\nc = false\n",
              "a = 1\na = 2\nGROUP = a\n a = 3\nEND_GROUP\na = 4\n", "", "END", "\n\n",
              "OBJECT = o\n OBJECT = o\n  OBJECT = o\n   k = ((1, 2), {3}) <m>\n  END_OBJECT\n END_OBJECT\nEND_OBJECT\n"]
     for t in extra:
@@ -234,7 +264,8 @@ def run(ctx):
         "rule": "%d distinct texts: C03's spelling x context product for the default dialect%s, 7 document shapes x all "
                 "<= 1 spelling deviations, extra documents, %d corpus files; each loaded by pvl.loads and pvl.new.loads, "
                 "trees compared level by level, then dumped with the default encoder and the 4 encoders (new ones "
-                "parameterised with the new container classes), then the same pair of results dumped by one encoder after "
+                "parameterised with the new container classes), a subset loaded again with an explicit grammar (3), decoder, "
+                "grammar + decoder and as bytes, then the same pair of results dumped by one encoder after "
                 "the other in two orders with the trees re-compared after every dump; non-trivial = both loaded, trees and all dumps "
                 "compared" % (len(items), " (every third spelling)" if ctx.quick else "", len(list(corpus()))),
         "outcome_histogram": dict(acc.outcomes),
